@@ -641,6 +641,74 @@ def replay_wrapper():
     return dict(confirmed=False, n=n, call='NetworkingThread.run over 36 stub behaviours', observed='conforms')
 
 
+class ExceptionClasses(Unit):
+    """The contracts of run / _handle_exception / the listener stages speak about "every Exception"; the exceptions the
+    library itself raises in the networking thread (login disconnect, version mismatch, ignore-packet raised in the wrong
+    place, ...) are covered only if their classes ARE Exceptions.  Structural obligation over minecraft.exceptions, plus the
+    real thread wrapper run with each of them."""
+    prop = 'C14'
+    name = 'C14.exception-classes'
+    int_mode = 'int'
+    functions = ('minecraft.exceptions [class hierarchy]',)
+
+    @staticmethod
+    def classes():
+        import inspect
+        import minecraft.exceptions as X
+        return sorted((c for c in vars(X).values() if inspect.isclass(c) and issubclass(c, BaseException) and c.__module__ == X.__name__),
+                      key=lambda c: c.__name__)
+
+    def run(self, I):
+        E = I.E
+        cs = self.classes()
+        E.check('exceptions.nonempty', len(cs) > 0)
+        for c in cs:
+            E.check('exceptions.are-Exceptions[%s]' % c.__name__, issubclass(c, Exception),
+                    note='%s is caught by "except Exception": it is routed to the handlers like any other error' % c.__name__)
+        return None
+
+    def replay(self, model, label):
+        return replay_exception_classes()
+
+    def bounded(self, rng, tier):
+        rp = replay_exception_classes()
+        return dict(name='C14.exception-classes.routed', evaluations=rp['n'], bound='NetworkingThread.run with _run raising one instance of '
+                    'each class of minecraft.exceptions', failures=[dict(call=rp['call'], observed=rp['observed'], witness='exception-class')]
+                    if rp['confirmed'] else [])
+
+
+def replay_exception_classes():
+    import threading
+    n = 0
+    for c in ExceptionClasses.classes():
+        n += 1
+        try:
+            exc = c('x')
+        except Exception:       # noqa
+            try:
+                exc = c()
+            except Exception:   # noqa
+                continue
+        conn = types.SimpleNamespace(networking_thread='T', new_networking_thread=None, **{lock_name(): threading.RLock()})
+        t = NetworkingThread(conn)
+        seen = []
+
+        def _run(exc=exc):
+            raise exc
+        t._run = _run
+        conn._handle_exit = lambda: None
+        conn._handle_exception = lambda e, info: seen.append(e)
+        try:
+            t.run()
+            out = 'returned'
+        except BaseException as e:     # noqa
+            out = e
+        if seen != [exc] or out != 'returned':
+            return dict(confirmed=True, n=n, call='NetworkingThread.run with _run raising %s' % c.__name__,
+                        observed='_handle_exception saw %r, run() %s' % (seen, 'returned' if out == 'returned' else 'let %r escape' % (out,)))
+    return dict(confirmed=False, n=n, call='library exception classes through run()', observed='all routed to _handle_exception')
+
+
 def c15_units():
     return [ThreadWrapper()]
 
@@ -650,4 +718,4 @@ def units(tier):
     rl = c11.RunLoop()
     # exceptions of the reader / the reactions must reach run() unchanged, where they are routed
     rl.prop, rl.name = 'C14', 'C14.run-loop.propagates'
-    return [RegisterHandler(), HandlerDecorator(), Chain(), ChainUnrolled(), ThreadWrapper(), rl]
+    return [RegisterHandler(), HandlerDecorator(), Chain(), ChainUnrolled(), ThreadWrapper(), rl, ExceptionClasses()]
